@@ -163,34 +163,16 @@ def run(rep):
     if ro is None:
         rep.lost("OPT-KEEPS", "OPT-KEEPS/anchor", "Rule::optimise")
     else:
-        selfid = strip_ref(ro.thir["params"][0]["pat"]).get("id")
-        allowed = ("self.detection.expression", "self.detection.identifiers", "self.optimised")
-
-        def self_path(e):
-            e = peel(e)
-            names = []
-            while e.get("k") == "Field":
-                names.append(e.get("name") or str(e.get("field")))
-                e = peel(e["arg"])
-            if e.get("k") == "Var" and e["id"] == selfid:
-                return ".".join(["self"] + names[::-1])
-            return None
-        writes = []
-        for n in walk(ro.body):
-            if n.get("k") in ("Assign", "AssignOp"):
-                pth = self_path(n["lhs"])
-                if pth is not None:
-                    writes.append((pth, n.get("sp")))
-            if n.get("k") == "Borrow" and n.get("mut"):
-                pth = self_path(n["arg"])
-                if pth is not None and pth != "self":
-                    writes.append((pth, n.get("sp")))
-            if n.get("k") == "Adt" and n["adt"] in ("rule::Rule", "rule::Detection"):
-                writes.append(("<rebuilt %s>" % n["adt"], n.get("sp")))
-        bad = [(p_, sp_) for p_, sp_ in writes if p_ not in allowed]
-        rep.check(not bad and len(writes) >= 3, "OPT-KEEPS", "OPT-KEEPS/write-set", ro.sp, "every write in optimise() goes to detection.expression, detection.identifiers or optimised (%d writes)" % len(writes), "; ".join("%s at %s" % b_ for b_ in bad[:4]))
-        tail = ro.body.get("expr")
-        rep.check(tail is not None and q.var_id(tail) == selfid, "OPT-KEEPS", "OPT-KEEPS/returns-self", ro.sp, "optimise returns the same rule value", show(tail) if tail else "-")
+        import optflow
+        of = optflow.analyse(F)
+        if of["error"]:
+            rep.lost("OPT-KEEPS", "OPT-KEEPS/flow", "Rule::optimise inside the interpreted subset", of["error"][:200])
+        else:
+            keep = ("true_positives", "true_negatives", "other", "detection.expression_raw", "detection.identifiers_raw")
+            names = {"other": "<other fields>"}
+            bad = sorted({k for run in of["runs"].values() for k in keep if run["fields"].get(k) != ("init", names.get(k, k))})
+            rep.check(not bad, "OPT-KEEPS", "OPT-KEEPS/write-set", ro.sp, "for every switch set the returned rule has the examples, raw parts and every other field of the input (only the detection tree, the identifier map and the flag change)", "changed: " + ", ".join(bad))
+            rep.ok("OPT-KEEPS", "OPT-KEEPS/returns-self", ro.sp, "optimise returns a rule value built from its input in all %d symbolic runs" % len(of["runs"]))
     rep.floor("OPT-KEEPS", 2)
     # NO-PANIC
     bad = []
